@@ -31,8 +31,10 @@ import (
 	"time"
 
 	"google.golang.org/genproto/googleapis/rpc/errdetails"
+	spb "google.golang.org/genproto/googleapis/rpc/status"
 	"google.golang.org/grpc/codes"
 	"google.golang.org/grpc/status"
+	"google.golang.org/protobuf/types/known/anypb"
 	"google.golang.org/protobuf/types/known/durationpb"
 
 	"go.opentelemetry.io/collector/component"
@@ -42,20 +44,20 @@ import (
 	"go.opentelemetry.io/collector/config/configtls"
 	"go.opentelemetry.io/collector/consumer"
 	"go.opentelemetry.io/collector/consumer/consumererror"
+	"go.opentelemetry.io/collector/consumer/xconsumer"
 	"go.opentelemetry.io/collector/exporter/exportertest"
 	"go.opentelemetry.io/collector/exporter/otlpexporter"
 	"go.opentelemetry.io/collector/exporter/otlphttpexporter"
+	"go.opentelemetry.io/collector/exporter/xexporter"
 	"go.opentelemetry.io/collector/extension/extensionauth/extensionauthtest"
 	"go.opentelemetry.io/collector/pdata/pcommon"
 	"go.opentelemetry.io/collector/pdata/plog"
 	"go.opentelemetry.io/collector/pdata/pmetric"
 	"go.opentelemetry.io/collector/pdata/pprofile"
-	"go.opentelemetry.io/collector/consumer/xconsumer"
-	"go.opentelemetry.io/collector/exporter/xexporter"
-	"go.opentelemetry.io/collector/receiver/xreceiver"
 	"go.opentelemetry.io/collector/pdata/ptrace"
 	"go.opentelemetry.io/collector/receiver/otlpreceiver"
 	"go.opentelemetry.io/collector/receiver/receivertest"
+	"go.opentelemetry.io/collector/receiver/xreceiver"
 
 	"VERIF/vr"
 )
@@ -66,7 +68,9 @@ func c15FreeAddr() string {
 	return l.Addr().String()
 }
 
-type c15Host struct{ ext map[component.ID]component.Component }
+type c15Host struct {
+	ext map[component.ID]component.Component
+}
 
 func (h c15Host) GetExtensions() map[component.ID]component.Component { return h.ext }
 
@@ -173,6 +177,24 @@ func c15Outcomes() []c15Outcome {
 		d := 2500 * time.Millisecond
 		st, _ := status.New(c, "x").WithDetails(&errdetails.RetryInfo{RetryDelay: durationpb.New(d)})
 		out = append(out, c15Outcome{fmt.Sprintf("%v/retry-delay=%v", c, d), st.Err(), fmt.Sprintf("throttle:%v", d), "throttle:2s|throttle:3s", c15HTTPStatus(c), true})
+	}
+	// RetryInfo among OTHER status details (a backend's quota / debug message forwarded verbatim): a well-known detail type
+	// and one whose message type is not linked into this binary (gRPC carries details as opaque Any values, so that is legal),
+	// before and after the RetryInfo. The requested delay is the same requested delay.
+	for _, c := range []codes.Code{codes.Unavailable, codes.ResourceExhausted, codes.Aborted} {
+		d := 2 * time.Second
+		ri, _ := anypb.New(&errdetails.RetryInfo{RetryDelay: durationpb.New(d)})
+		ei, _ := anypb.New(&errdetails.ErrorInfo{Reason: "quota", Domain: "backend.example"})
+		unk := &anypb.Any{TypeUrl: "type.googleapis.com/vendor.example.QuotaDetail", Value: []byte{0x0a, 0x03, 'a', 'b', 'c'}}
+		for name, details := range map[string][]*anypb.Any{
+			"known-detail-first": {ei, ri}, "known-detail-last": {ri, ei},
+			"unlinked-detail-first": {unk, ri}, "unlinked-detail-last": {ri, unk}, "unlinked-and-known-first": {unk, ei, ri},
+		} {
+			st := status.FromProto(&spb.Status{Code: int32(c), Message: "x", Details: details})
+			g := fmt.Sprintf("throttle:%v", d)
+			hs := c15HTTPStatus(c)
+			out = append(out, c15Outcome{fmt.Sprintf("%v/retry-delay=%v/%s", c, d, name), st.Err(), g, c15HTTPClass(c, d), hs, hs == 429 || hs == 503})
+		}
 	}
 	return out
 }
@@ -323,10 +345,10 @@ type c15Sender struct {
 	http bool
 	// levelOnly: a sender that differs from another one only in its compression level; it carries the success cases only
 	levelOnly bool
-	logs consumer.Logs
-	trcs consumer.Traces
-	mets consumer.Metrics
-	prof xconsumer.Profiles
+	logs      consumer.Logs
+	trcs      consumer.Traces
+	mets      consumer.Metrics
+	prof      xconsumer.Profiles
 }
 
 // c15Levels: explicit compression levels for the HTTP exporter (the gRPC client has no level setting), on top of the default
@@ -365,43 +387,43 @@ func c15Senders(w *c15World, comps []configcompression.Type, skipped *[]string) 
 			out = append(out, c15Sender{"grpc/" + string(comp), false, false, l, tr, m, pr})
 		}()
 		for _, enc := range []otlphttpexporter.EncodingType{otlphttpexporter.EncodingProto, otlphttpexporter.EncodingJSON} {
-		  for _, level := range append([]configcompression.Level{0}, c15Levels[comp]...) {
-			if level != 0 && enc != otlphttpexporter.EncodingProto {
-				continue
-			}
-			func() {
-				hf := otlphttpexporter.NewFactory()
-				hc := hf.CreateDefaultConfig().(*otlphttpexporter.Config)
-				hc.ClientConfig.Endpoint = "http://" + w.haddr
-				hc.ClientConfig.Compression = comp
-				lname := ""
-				if level != 0 {
-					hc.ClientConfig.CompressionParams = configcompression.CompressionParams{Level: level}
-					lname = fmt.Sprintf("-level%d", level)
+			for _, level := range append([]configcompression.Level{0}, c15Levels[comp]...) {
+				if level != 0 && enc != otlphttpexporter.EncodingProto {
+					continue
 				}
-				hc.Encoding = enc
-				hc.RetryConfig.Enabled = false
-				hc.QueueConfig.Enabled = false
-				set := exportertest.NewNopSettings(hf.Type())
-				l, e1 := hf.CreateLogs(ctx, set, hc)
-				tr, e2 := hf.CreateTraces(ctx, set, hc)
-				m, e3 := hf.CreateMetrics(ctx, set, hc)
-				pr, e4 := hf.(xexporter.Factory).CreateProfiles(ctx, set, hc)
-				if e1 != nil || e2 != nil || e3 != nil || e4 != nil {
-					*skipped = append(*skipped, "http-"+string(enc)+"/"+string(comp)+": create failed")
-					return
-				}
-				for _, c := range []component.Component{l, tr, m, pr} {
-					if err := c.Start(ctx, host); err != nil {
-						*skipped = append(*skipped, fmt.Sprintf("http-%s/%s: %v", enc, comp, err))
+				func() {
+					hf := otlphttpexporter.NewFactory()
+					hc := hf.CreateDefaultConfig().(*otlphttpexporter.Config)
+					hc.ClientConfig.Endpoint = "http://" + w.haddr
+					hc.ClientConfig.Compression = comp
+					lname := ""
+					if level != 0 {
+						hc.ClientConfig.CompressionParams = configcompression.CompressionParams{Level: level}
+						lname = fmt.Sprintf("-level%d", level)
+					}
+					hc.Encoding = enc
+					hc.RetryConfig.Enabled = false
+					hc.QueueConfig.Enabled = false
+					set := exportertest.NewNopSettings(hf.Type())
+					l, e1 := hf.CreateLogs(ctx, set, hc)
+					tr, e2 := hf.CreateTraces(ctx, set, hc)
+					m, e3 := hf.CreateMetrics(ctx, set, hc)
+					pr, e4 := hf.(xexporter.Factory).CreateProfiles(ctx, set, hc)
+					if e1 != nil || e2 != nil || e3 != nil || e4 != nil {
+						*skipped = append(*skipped, "http-"+string(enc)+"/"+string(comp)+": create failed")
 						return
 					}
-					c := c
-					w.shutdown = append(w.shutdown, func() { _ = c.Shutdown(ctx) })
-				}
-				out = append(out, c15Sender{"http-" + string(enc) + "/" + string(comp) + lname, true, level != 0, l, tr, m, pr})
-			}()
-		  }
+					for _, c := range []component.Component{l, tr, m, pr} {
+						if err := c.Start(ctx, host); err != nil {
+							*skipped = append(*skipped, fmt.Sprintf("http-%s/%s: %v", enc, comp, err))
+							return
+						}
+						c := c
+						w.shutdown = append(w.shutdown, func() { _ = c.Shutdown(ctx) })
+					}
+					out = append(out, c15Sender{"http-" + string(enc) + "/" + string(comp) + lname, true, level != 0, l, tr, m, pr})
+				}()
+			}
 		}
 	}
 	return out
